@@ -237,7 +237,7 @@ func init() {
 
 	// ------------------------------------------------------------------ C03
 	register("C03", func(c *engine.Ctx) {
-		c.Rule = "random structured schemas of the tree fragment; a fully populated valid document; at every typed position (single type or [T,null], reached through properties, array items and $ref) the value is replaced by a value of every other JSON type (string, integer, non-integral number, boolean, array, object) and, where null is allowed, by null; plus typed positions built by composition (allOf / anyOf over object branches typed object, [object,null] or [null,object], inline or by $ref) with wrong-typed values for the whole position and for a member; plus two documents that define Base.id with different types and compose it by the same reference text (allOf / anyOf / plain, with and without $id), every ordered pair of five types. Verdict must equal the reference. Distinct = distinct (position type, substituted type, verdicts)."
+		c.Rule = "random structured schemas of the tree fragment; a fully populated valid document; at every typed position (single type or [T,null], reached through properties, array items and $ref) the value is replaced by a value of every other JSON type (string, integer, non-integral number, boolean, array, object) and, where null is allowed, by null; plus typed positions built by composition (allOf / anyOf over object branches typed object, [object,null] or [null,object], inline or by $ref) with wrong-typed values for the whole position and for a member; plus two documents that define Base.id with different types and compose it by the same reference text (allOf / anyOf / plain, with and without $id), every ordered pair of five types; plus one schema (typed members at the top, nested, in array items) with every property name replaced by a word of each of 14 scripts (cased and caseless), documents renamed alike, judged by the reference verdict of the ASCII spelling. Verdict must equal the reference. Distinct = distinct (position type, substituted type, verdicts)."
 		c.Proofs([]string{"GJS.Props.C03", "GJS.Proofs.Stable"}, []string{
 			"GJS.Proofs.decode_stable",
 			"GJS.Proofs.fails_not_accepted", "GJS.Props.C03.top_mismatch", "GJS.Props.C03.cert_wrong_type_le",
@@ -320,6 +320,7 @@ func init() {
 		res := runCases(c, pcs)
 		fails := verdictOracle(c, res, "wrong JSON type", nil)
 		fails += typedDefsAcrossFiles(c)
+		fails += renamedKeysAcrossScripts(c)
 		certCount(c, res, "type")
 		for _, r := range res {
 			if len(c.Samples) < 6 && len(r.DocJSON) > 1 {
